@@ -20,6 +20,8 @@ def run(ctx):
         fi.design(ctx, "edits", ["x/p", "y/p"], ["x/o"], 2, "mc-imports-edits-samebase")
     scs = fi.emit(ctx, "edits", pp, op, 2, 4 if quick else 24, 2 if quick else 6, "edits")
     scs += fi.emit(ctx, "edits", ["x/p", "y/p"], ["x/o", "fmt"], 2, 2 if quick else 12, 2 if quick else 4, "edits-samebase")
+    # a path whose last element is a version-like name that IS the package name (k8s.io/api/core/v1 style)
+    scs += fi.emit(ctx, "edits", ["x/v2", "x/q"], ["x/o"], 2, 1 if quick else 8, 2 if quick else 4, "edits-vn")
     # the statement is about changes that apply
     scs = [s for s in scs if s["holds"] == "1"]
     meta, lines = fi.run_cases(ctx, scs, "c11", allow_ref=True)
